@@ -210,6 +210,8 @@ int arrSum(const int *arr, int n) { Guard g; int s = 0; for (int i = 0; i < n; i
 void arrWeights(int *values, int nvalues, const int *weights, int nweights) { Guard g; for (int i = 0; i < nvalues; i++) values[i] *= (nweights > 0 ? weights[i % nweights] : 1); }
 void charGrow(char *s) { Guard g; std::strcat(s, "!!"); }
 int charArrLen(char **names, int n) { Guard g; int t = 0; for (int i = 0; i < n; i++) { if (names[i]) t += static_cast<int>(std::strlen(names[i])) + 100; else t += 50; } return t; }
+int charArrTwo(char **a, int na, char **b, int nb) { Guard g; return charArrLen(a, na) * 3 + charArrLen(b, nb); }
+void arrInOut(const int *in, int nin, int n, double *out) { Guard g; int s = 0; for (int i = 0; i < nin; i++) s += in[i]; for (int i = 0; i < n; i++) out[i] = s + 0.5 * i; }
 Item &refItem() { Guard g; return *borrowItem(); }
 std::vector<double> vecRetD(int n) { Guard g; std::vector<double> v; for (int i = 0; i < n; i++) v.push_back(0.25 + i); return v; }
 
